@@ -1313,25 +1313,38 @@ PPL::Polyhedron::strongly_minimize_constraints() const {
     // then we have to check whether such an upper bound is implied
     // by the remaining constraints (exploiting the simplex algorithm).
     if (!found_eps_leq_one) {
-      MIP_Problem lp;
-      // KLUDGE: temporarily mark the constraint system as if it was
-      // necessarily closed, so that we can interpret the epsilon
-      // dimension as a standard dimension. Be careful to reset the
-      // topology of `cs' even on exceptional execution path.
-      cs.mark_as_necessarily_closed();
+      MIP_Problem_Status status;
       try {
-        lp.add_space_dimensions_and_embed(cs.space_dimension());
-        lp.add_constraints(cs);
-        cs.mark_as_not_necessarily_closed();
+        MIP_Problem lp;
+        // KLUDGE: temporarily mark the constraint system as if it was
+        // necessarily closed, so that we can interpret the epsilon
+        // dimension as a standard dimension. Be careful to reset the
+        // topology of `cs' even on exceptional execution path.
+        cs.mark_as_necessarily_closed();
+        try {
+          lp.add_space_dimensions_and_embed(cs.space_dimension());
+          lp.add_constraints(cs);
+          cs.mark_as_not_necessarily_closed();
+        }
+        catch (...) {
+          cs.mark_as_not_necessarily_closed();
+          throw;
+        }
+        // The objective function is `epsilon'.
+        lp.set_objective_function(Variable(x.space_dim));
+        lp.set_optimization_mode(MAXIMIZATION);
+        status = lp.solve();
       }
       catch (...) {
-        cs.mark_as_not_necessarily_closed();
+        // The computation was cut short (memory exhaustion, abandoned
+        // computation) and we do not know whether the remaining
+        // constraints bound the epsilon dimension from above:
+        // the (possibly redundant) eps_leq_one constraint keeps `cs'
+        // a valid description of the same polyhedron.
+        cs.insert(Constraint::epsilon_leq_one());
+        x.clear_constraints_minimized();
         throw;
       }
-      // The objective function is `epsilon'.
-      lp.set_objective_function(Variable(x.space_dim));
-      lp.set_optimization_mode(MAXIMIZATION);
-      const MIP_Problem_Status status = lp.solve();
       PPL_ASSERT(status != UNFEASIBLE_MIP_PROBLEM);
       // If the epsilon dimension is actually unbounded,
       // then add the eps_leq_one constraint.
